@@ -4,6 +4,7 @@
      imm <fn> <operand> <int>          same meaning as `<fn> <operand> n:<int>` (immediate opcodes)
      cmpsd <int> <hex16>               compare_int64_double       -> i:<r> | ub
      cmpud <nat> <hex16>               compare_uint64_double      -> i:<r> | ub
+     link <0|1>                        sets `Cfg.s64BelowU64` (the harness answers `link?` with the order of the two type descriptors)
    IEEE arithmetic on two plain numbers is delegated to Lean's `Float` (hardware), `fmod` is computed exactly. -/
 import Driver.Util
 import JanetModel.Int64.Model
@@ -71,27 +72,28 @@ def showInt : Res Int → String
   | .err e => "err:" ++ e.name
   | .ub => "ub"
 
-def step (_ : Unit) (toks : List String) : Unit × String :=
+def step (cfg : Cfg) (toks : List String) : Cfg × String :=
   match toks with
+  | ["link", b] => ({ cfg with s64BelowU64 := b == "1" }, "ok")
   | ["cmpsd", x, h] =>
     (match x.toInt?, parseHex h with
-     | some xv, some b => ((), showInt (compareInt64Double cfgGen xv (decode b)))
-     | _, _ => ((), "bad-op"))
+     | some xv, some b => (cfg, showInt (compareInt64Double cfg xv (decode b)))
+     | _, _ => (cfg, "bad-op"))
   | ["cmpud", x, h] =>
     (match x.toInt?, parseHex h with
-     | some xv, some b => ((), showInt (compareUint64Double cfgGen xv (decode b)))
-     | _, _ => ((), "bad-op"))
+     | some xv, some b => (cfg, showInt (compareUint64Double cfg xv (decode b)))
+     | _, _ => (cfg, "bad-op"))
   | ["imm", fn, a, k] =>
     (match parseOperand a, k.toInt? with
-     | some av, some kv => ((), showRes (evalFn cfgGen numOps fn [av, Val.ofInt kv]))
-     | _, _ => ((), "bad-op"))
+     | some av, some kv => (cfg, showRes (evalFn cfg numOps fn [av, Val.ofInt kv]))
+     | _, _ => (cfg, "bad-op"))
   | fn :: rest =>
     (match rest.mapM parseOperand with
      | some args =>
-       if args.isEmpty then ((), "bad-op")
-       else if fn.startsWith "m:" then ((), showRes (methodCall cfgGen (fn.drop 2).toString args))
-       else ((), showRes (evalFn cfgGen numOps fn args))
-     | none => ((), "bad-op"))
-  | _ => ((), "bad-op")
+       if args.isEmpty then (cfg, "bad-op")
+       else if fn.startsWith "m:" then (cfg, showRes (methodCall cfg (fn.drop 2).toString args))
+       else (cfg, showRes (evalFn cfg numOps fn args))
+     | none => (cfg, "bad-op"))
+  | _ => (cfg, "bad-op")
 
-def main : IO Unit := runLoop () step
+def main : IO Unit := runLoop cfgGen step
